@@ -52,6 +52,49 @@ def MulVariant.c : MulVariant := {}
 /-- MUL_KARATSUBA_THRESHOLD of the build under test (gmp-mparam.h:3) -/
 def mulKaratsubaThreshold : Nat := 17
 
+/-- mul.c:111-152, after the swap that makes `usize >= vsize`: "Ensure W has space enough to store the result" (by hand:
+    free + allocate, the release postponed when the block is an operand) or else "Make U and V not overlap with W".
+    Returns (wp, up, vp, free_me, TMP blocks, state). -/
+def mulPrep (V : MulVariant) (w u v usize vsize : Nat) (s : St) : R (Nat × Nat × Nat × List Nat × List Nat × St) :=
+  let wsize := usize + vsize
+  let up := s.ptr u                                           -- :113
+  let vp := s.ptr v                                           -- :114
+  let wp := s.ptr w                                           -- :115
+  if s.alloc w < wsize then                                   -- :118
+    let isOp : Bool := wp = up ∨ wp = vp                      -- :120
+    let keep : Bool := isOp ∧ V.deferFree                     -- :122-123 free_me = wp
+    let s := if keep then s else s.free wp                    -- :126
+    let s := s.newBlock w wsize                               -- :128-130
+    pure (s.ptr w, up, vp, (if keep then [wp] else []), ([] : List Nat), s)
+  else if V.copyOperand ∧ wp = up then do                     -- :135
+    let r ← s.tmpCopy wp usize                                -- :138, :143
+    pure (wp, r.1, (if wp = vp then r.1 else vp), [], [r.1], r.2)       -- :140-141
+  else if V.copyOperand ∧ wp = vp then do                     -- :145
+    let r ← s.tmpCopy wp vsize                                -- :148-150
+    pure (wp, up, r.1, [], [r.1], r.2)
+  else pure (wp, up, vp, [], [], s)
+
+/-- mul.c:111-166 -/
+def mulBig (V : MulVariant) (w u v usize vsize : Nat) (neg : Bool) (s : St) : R St := do
+  let wsize := usize + vsize
+  let (wp, up, vp, freeMe, tmp, s) ← mulPrep V w u v usize vsize s
+  let r ← mpn_mul wp up usize vp vsize s                      -- :154-159 (mpn_sqr when up == vp and the sizes agree)
+  let n := wsize - (if r.1 = 0 then 1 else 0)                 -- :160-161
+  let s := r.2.setSize w (if neg then -(n : Int) else (n : Int))   -- :163
+  let s := freeMe.foldl St.free s                             -- :164-165
+  pure (tmp.foldl St.free s)                                  -- :166 TMP_FREE
+
+/-- mul.c:69-78 (`vsize == 1`): mpn_mul_1 may work in place (w = u); `PTR (u)` and `PTR (v)[0]` are fetched after the
+    reallocation of w (w = v: the one limb of v is read from the moved block before mpn_mul_1 overwrites it) -/
+def mulOne (w u v usize : Nat) (neg : Bool) (s : St) : R St := do
+  let s := s.mpzRealloc w (usize + 1)                         -- :71
+  let wp := s.ptr w                                           -- :72
+  let vl ← limbAt s (s.ptr v) 0                               -- :73 PTR(v)[0]
+  let r ← mpn_mul_1 wp (s.ptr u) usize vl s                   -- :73
+  let s ← r.2.storeAt wp usize [r.1]                          -- :74 wp[usize] = cy_limb
+  let n := usize + (if r.1 ≠ 0 then 1 else 0)                 -- :75
+  pure (s.setSize w (if neg then -(n : Int) else (n : Int)))  -- :76
+
 /-- mpz_mul (w, u, v): mpz/mul.c:30-166 (HAVE_NATIVE_mpn_mul_2 undefined: the `vsize == 1` arm :69-78 is compiled;
     HAVE_NATIVE_mpn_sqr_basecase defined: :90-91 — same contract as mpn_mul_basecase). -/
 def mpz_mulV (V : MulVariant) (w u v : Nat) (s : St) : R St := do
@@ -61,14 +104,7 @@ def mpz_mulV (V : MulVariant) (w u v : Nat) (s : St) : R St := do
   let usize := us.natAbs                                      -- :42
   let vsize := vs.natAbs                                      -- :43
   if usize = 0 ∨ vsize = 0 then pure (s.setSize w 0)          -- :45-49
-  else if vsize = 1 then do                                   -- :69
-    let s := s.mpzRealloc w (usize + 1)                       -- :71
-    let wp := s.ptr w                                         -- :72
-    let vl ← limbAt s (s.ptr v) 0                             -- :73 PTR(v)[0]  (fetched after the realloc)
-    let r ← mpn_mul_1 wp (s.ptr u) usize vl s                 -- :73
-    let s ← r.2.storeAt wp usize [r.1]                        -- :74 wp[usize] = cy_limb
-    let n := usize + (if r.1 ≠ 0 then 1 else 0)               -- :75
-    pure (s.setSize w (if neg then -(n : Int) else (n : Int)))   -- :76
+  else if vsize = 1 then mulOne w u v usize neg s             -- :69-78
   else
     let wsize := usize + vsize                                -- :81
     if wsize ≤ mulKaratsubaThreshold ∧ (V.smallGuard → w ≠ u ∧ w ≠ v) then do   -- :83
@@ -78,31 +114,8 @@ def mpz_mulV (V : MulVariant) (w u v : Nat) (s : St) : R St := do
                else mpn_mul wp (s.ptr v) vsize (s.ptr u) usize s)                   -- :98
       let n := wsize - (if r.1 = 0 then 1 else 0)             -- :100 wsize -= (wp[wsize - 1] == 0)
       pure (r.2.setSize w (if neg then -(n : Int) else (n : Int)))   -- :101
-    else do
-      let sw : Bool := usize < vsize                          -- :105-109
-      let (u, v, usize, vsize) := if sw then (v, u, vsize, usize) else (u, v, usize, vsize)
-      let up := s.ptr u                                       -- :113
-      let vp := s.ptr v                                       -- :114
-      let wp := s.ptr w                                       -- :115
-      let (wp, up, vp, freeMe, tmp, s) ← (
-        if s.alloc w < wsize then                             -- :118
-          let isOp : Bool := wp = up ∨ wp = vp                -- :120
-          let keep : Bool := isOp ∧ V.deferFree               -- :122-123 free_me = wp
-          let s := if keep then s else s.free wp              -- :126
-          let s := s.newBlock w wsize                         -- :128-130
-          pure (s.ptr w, up, vp, (if keep then [wp] else []), ([] : List Nat), s)
-        else if V.copyOperand ∧ wp = up then do               -- :135
-          let r ← s.tmpCopy wp usize                          -- :138, :143
-          pure (wp, r.1, (if wp = vp then r.1 else vp), [], [r.1], r.2)     -- :140-141
-        else if V.copyOperand ∧ wp = vp then do               -- :145
-          let r ← s.tmpCopy wp vsize                          -- :148-150
-          pure (wp, up, r.1, [], [r.1], r.2)
-        else pure (wp, up, vp, [], [], s))
-      let r ← mpn_mul wp up usize vp vsize s                  -- :154-159 (mpn_sqr when up == vp and the sizes agree)
-      let n := wsize - (if r.1 = 0 then 1 else 0)             -- :160-161
-      let s := r.2.setSize w (if neg then -(n : Int) else (n : Int))   -- :163
-      let s := freeMe.foldl St.free s                         -- :164-165
-      pure (tmp.foldl St.free s)                              -- :166 TMP_FREE
+    else if usize < vsize then mulBig V w v u vsize usize neg s      -- :105-109 MPZ_SRCPTR_SWAP, MP_SIZE_T_SWAP
+    else mulBig V w u v usize vsize neg s
 
 def mpz_mul := mpz_mulV .c
 
